@@ -41,6 +41,9 @@ func c01Rules(p *core.Prog, r *core.Run) {
 	// route
 	c01Accessors(p, r, m, "C01.route")
 	c01Route(p, r, m, "C01.route")
+	// ... and the names reported (and compared with the config's public name)
+	// are the names as the client wrote them
+	c05SniAlpn(p, r, m, "C01.route.parse")
 	// hrr
 	c06State(p, r, m, "C01.hrr")
 	// the reconstructed inner hello is exact (extension order matters: pre_shared_key must stay last)
